@@ -178,6 +178,29 @@ func heapRoles() []heapRole {
 			}
 			return seq(one(decl(a, k.mk(1))), one(&ForEach{Var: e1.Name, T: et, In: a, Body: body(e1)}), one(&ForEach{Var: e2.Name, T: et, In: k.mk(2), Body: body(e2)})), nil
 		}},
+		{"for-each-early-exit", func(p string, k heapKind) ([]Stmt, []*Func) {
+			// break / continue / return executed INSIDE the body of a for-each over the kind (variable and temporary source)
+			if k.t.K != KList && k.t.K != KText {
+				return nil, nil
+			}
+			et := Char
+			if k.t.K == KList {
+				et = k.t.Elem
+			}
+			a := v(p, "a", k.t)
+			mkLoop := func(tag string, src Expr, exit Stmt) Stmt {
+				e, i := v(p, "e"+tag, et), v(p, "i"+tag, Zahl)
+				return &ForEach{Var: e.Name, T: et, Idx: i.Name, In: src, Body: seq(
+					one(&VarDecl{Name: p + "_lok" + tag, T: k.t, Init: k.mk(3)}),
+					one(&If{Cond: eq(i, zl(2)), Then: seq(one(prs(tag+"\n")), one(exit))}), pr(i))}
+			}
+			f := &Func{Name: p + "_suche", Params: []Param{{Name: "w", T: k.t}}, Ret: Zahl, Body: seq(
+				one(mkLoop("r", vr("w", k.t), &Return{X: zl(2)})), one(&Return{X: zl(-1)}))}
+			g := &Func{Name: p + "_suchetemp", Ret: Zahl, Body: seq(
+				one(mkLoop("t", k.mk(5), &Return{X: zl(2)})), one(&Return{X: zl(-1)}))}
+			return seq(one(decl(a, k.mk(1))), one(mkLoop("b", a, &Break{})), one(mkLoop("c", a, &Continue{})), one(mkLoop("bt", k.mk(2), &Break{})),
+				pr(&Call{F: f, Args: []Expr{a}}), pr(&Call{F: g}), k.digest(a)), []*Func{f, g}
+		}},
 		{"concat-operands", func(p string, k heapKind) ([]Stmt, []*Func) {
 			if k.t.K != KList && k.t.K != KText {
 				return nil, nil
